@@ -220,8 +220,30 @@ func split(t *rapid.T, total uint32, label string) (uint32, uint32) {
 	return a, total - a
 }
 
-// GenH264SPS generates sequence parameter sets over profiles 66/77/88/100/
-// 110/122/244/44, all chroma formats incl. separate planes, scaling matrices
+// H264ProfilesWithChromaInfo is the complete list of profile_idc values for
+// which seq_parameter_set_data() (H.264 08/2021, 7.3.2.1.1) carries
+// chroma_format_idc … seq_scaling_matrix: High, High 10, High 4:2:2, High 4:4:4
+// Predictive, CAVLC 4:4:4 Intra, Scalable Baseline, Scalable High, Multiview
+// High, Stereo High, Multiview Depth High, Enhanced Multiview Depth High, MFC
+// High, MFC Depth High.
+var H264ProfilesWithChromaInfo = []uint32{100, 110, 122, 244, 44, 83, 86, 118, 128, 138, 139, 134, 135}
+
+// H264ProfilesWithoutChromaInfo: Baseline, Main, Extended, and a few values no
+// edition assigns (the syntax table has no branch for them; chroma_format_idc
+// is inferred 1). 183, which ipchub (after FFmpeg) treats specially, is not
+// drawn: it is a reserved value without a standard-defined meaning.
+var H264ProfilesWithoutChromaInfo = []uint32{66, 77, 88, 66, 77, 88, 67, 99, 120, 200, 255}
+
+func genProfileIdc(t *rapid.T) uint32 {
+	if rapid.IntRange(0, 9).Draw(t, "profile_family") < 7 {
+		return rapid.SampledFrom(H264ProfilesWithChromaInfo).Draw(t, "profile_idc")
+	}
+	return rapid.SampledFrom(H264ProfilesWithoutChromaInfo).Draw(t, "profile_idc")
+}
+
+// GenH264SPS generates sequence parameter sets (nal_unit_type 7) over every
+// profile_idc of the 2021 edition with and without the chroma branch (see the
+// two lists above), all chroma formats incl. separate planes, scaling matrices
 // (fall-back, default, early-terminated and full lists), the three POC types
 // with signed offsets over the full 32-bit range, frame and field coding,
 // cropping, and VUI with every optional block incl. NAL/VCL HRD with 1..32 CPBs.
@@ -229,7 +251,7 @@ func GenH264SPS() *rapid.Generator[*H264SPS] {
 	return rapid.Custom(func(t *rapid.T) *H264SPS {
 		s := &H264SPS{ChromaFormatIdc: 1}
 		s.NalRefIdc = rapid.Uint32Range(1, 3).Draw(t, "nal_ref_idc")
-		s.ProfileIdc = rapid.SampledFrom([]uint32{66, 77, 88, 100, 110, 122, 244, 44}).Draw(t, "profile_idc")
+		s.ProfileIdc = genProfileIdc(t)
 		for i := range s.ConstraintSetFlag {
 			s.ConstraintSetFlag[i] = pct(t, 30, "cs")
 		}
